@@ -551,10 +551,23 @@ def project_grid(g2, ctxt, order, first=()):
     flags["n_node_matches"] = bool(g2.n_node == len(npos))
     outcomes = {}
     stores = []
+    width_before = None
+    if not first:
+        # read before anything is materialised on the result (not in replayed histories: it would change them)
+        try:
+            width_before = int(g2.n_max_face_edges)
+        except Exception:  # noqa
+            raised.append("n_max_face_edges")
     for v in list(first) + [w for w in order if w not in first]:
         outcomes[v] = access(g2, v, res, raised, flags)
         if v in first:
             stores.append(store_of(g2))
+    if width_before is not None and "face_edges" in res and res["face_edges"]:
+        # the reported width of the face-edge table is that of the table, before and after it exists
+        try:
+            flags["n_max_face_edges_stable"] = bool(width_before == int(g2.n_max_face_edges) == len(res["face_edges"][0]))
+        except Exception:  # noqa
+            flags["n_max_face_edges_stable"] = False
     if "edge_node" not in raised:
         try:
             res["n_edge"] = int(g2.n_edge)
@@ -606,8 +619,10 @@ def project_grid(g2, ctxt, order, first=()):
     if "_efd" in res:
         efd = res.pop("_efd")
         res["efd_zero"] = [bool(x == 0.0) for x in efd]
-        ok = ref is not None and "edges" in res and len(efd) == len(res["edges"])
-        if ok:
+        ok = "edges" in res and len(efd) == len(res["edges"])
+        if ref is None:
+            ok = None  # no reference: not compared
+        elif ok:
             try:
                 rpos = match_positions(unit_xyz(ref.node_lon.values, ref.node_lat.values), ctxt["src_xyz"])
                 want = dict(zip(side_keys(ref, rpos), np.asarray(ref.edge_face_distances.values, dtype=float)))
@@ -657,7 +672,16 @@ ELEMENT = {"node": "nodes", "face": "face centers", "edge": "edge centers"}
 
 
 def record_case(case):
-    """Replays one case; returns the record for JudgeSubset.tla (plus '_info' for the harness)."""
+    """Replays one case; returns the record for JudgeSubset.tla (plus '_info' for the harness).
+    Whatever the tree under test does, a record comes back: '_machinery' marks a case in which the implementation
+    could not even provide the source grid or a projectable result (reported as clause Unusable, never a crash)."""
+    try:
+        return _record_case(case)
+    except Exception as e:  # noqa
+        return {"id": case["id"], "_machinery": "replay: %s: %s" % (type(e).__name__, str(e)[:200])}
+
+
+def _record_case(case):
     import numba
 
     ux = hux.import_ux()
@@ -712,8 +736,14 @@ def record_case(case):
                 idx = [edge_id[(min(a, b), max(a, b))] for a, b in op["sides"]]
             if op.get("shape"):
                 idx = shape_indices(op["shape"], kind, geo, srcE, rng)
+            if op.get("slice"):
+                # a slice object on the grid dimension of a UxDataArray denotes the index set Python's slicing gives
+                n_el = {"face": len(geo["faces"]), "node": len(geo["lon"]), "edge": len(srcE)}[kind]
+                idx = list(range(n_el))[slice(*op["slice"])]
+                if not idx:
+                    return {"id": case["id"], "_skip": "empty slice"}
             rec["sel"] = {"t": "idx", "idx": [int(x) for x in idx]}
-            arg = index_arg(idx, op.get("form", "list"))
+            arg = slice(*op["slice"]) if op.get("slice") else index_arg(idx, op.get("form", "list"))
             call = ("isel", {"n_" + kind: arg})
         elif t in ("box", "circle", "knn"):
             if geo["nodes"] is None:
@@ -765,7 +795,7 @@ def record_case(case):
             raise ValueError(t)
     except KeyError as e:
         return {"id": case["id"], "_machinery": "selection arguments: %r" % (e,)}
-    info["call"] = [call[0], {k: (v.tolist() if hasattr(v, "tolist") else v) for k, v in call[1].items()}]
+    info["call"] = [call[0], {k: (v.tolist() if hasattr(v, "tolist") else repr(v) if isinstance(v, slice) else v) for k, v in call[1].items()}]
     # ---- run it
     data = case.get("data")
     try:
@@ -809,7 +839,8 @@ def record_case(case):
     try:
         pristine = build_grid(geo, case["prov"], seed)
         if call[0] == "isel":
-            ctxt["ref"] = pristine.isel(**call[1])
+            # (a slice object is a UxDataArray indexer: the grid takes the index list it denotes)
+            ctxt["ref"] = pristine.isel(**{k: (rec["sel"]["idx"] if isinstance(v, slice) else v) for k, v in call[1].items()})
         elif call[0] == "constant_latitude":
             ctxt["ref"] = pristine.cross_section.constant_latitude(**call[1])
         else:
